@@ -153,7 +153,21 @@ def r_serret_body(body):
             i = mo.end()
             n += 1
     out.append(body[i:])
-    return "".join(out), ([("R-serret", "Ok(serializer)", "Ok(())  x%d" % n)] if n else [])
+    body2 = "".join(out)
+    log = [("R-serret", "Ok(serializer)", "Ok(())  x%d" % n)] if n else []
+    # chained writes: each write returns the serializer it was called on, so `s.write_a(x)?.write_b(y)` is `s.write_a(x)?; s.write_b(y)`
+    k = 0
+    while True:
+        mo = re.search(r"\b(\w+)\.(write_\w+)\(([^()]*)\)\?\s*\.(write_\w+)\(", body2)
+        if not mo or not code_mask(body2)[mo.start()]:
+            break
+        body2 = body2[:mo.start()] + "%s.%s(%s)?; %s.%s(" % (mo.group(1), mo.group(2), mo.group(3), mo.group(1), mo.group(4)) + body2[mo.end():]
+        k += 1
+        if k > 50:
+            raise Unsupported("R-serret: chained writes did not converge")
+    if k:
+        log.append(("R-serret", "s.write_a(x)?.write_b(", "s.write_a(x)?; s.write_b(  x%d" % k))
+    return body2, log
 
 
 
@@ -1431,7 +1445,9 @@ def emit_type(t, log):
         text = re.sub(r"(?m)^(\s*\w+)\s*=\s*\d+\s*(,?)", r"\1\2", text)
         arms = " ".join("%s::%s => %s," % (t["name"], v, n) for v, n in variants)
         text += ("\nimpl %s {\n    pub open spec fn disc(&self) -> u64 { match self { %s } }\n"
-                 "    #[verifier::external_body] pub fn to_u64(&self) -> (r: Option<u64>) ensures r == Some(self.disc()) { unimplemented!() }\n}\n") % (t["name"], arms)
+                 "    #[verifier::external_body] pub fn to_u64(&self) -> (r: Option<u64>) ensures r == Some(self.disc()) { unimplemented!() }\n"
+                 "    /// `self as u64` of a field-less enum is its discriminant (R-enumcast rewrites the cast to this call)\n"
+                 "    #[verifier::external_body] pub fn as_u64_(self) -> (r: u64) ensures r == self.disc() { unimplemented!() }\n}\n") % (t["name"], arms)
     pre = t.get("attrs", "")
     log.append(dict(type=t["name"], source=t["source"], line=loc["line"],
                     sha=hashlib.sha256(loc["text"].encode()).hexdigest()[:16]))
